@@ -53,7 +53,7 @@ Theorem C05_vm_never_panics :
   forall cx : ctx, c_text cx = concat cs -> (N.of_nat (length (concat cs)) < usize_max)%N ->
   bnd cs (c_pos cx) ->
   forall (bs : N -> bool) (e : expr) (p : prog),
-  compile bs (wrap e) = inr p -> nodeleg (p_body p) -> oke true 0 (wrap e) ->
+  compile bs (wrap e) = inr p -> okdeleg (p_body p) -> oke true 0 (wrap e) ->
   forall (max_st : nat) (lim : option N) (fuelv : nat),
   fst (vm_run cx p max_st lim fuelv) <> RPanic.
 Proof.
@@ -67,7 +67,7 @@ Theorem C05_vm_offsets_valid :
   forall cx : ctx, c_text cx = concat cs -> (N.of_nat (length (concat cs)) < usize_max)%N ->
   bnd cs (c_pos cx) ->
   forall (bs : N -> bool) (e : expr) (p : prog),
-  compile bs (wrap e) = inr p -> nodeleg (p_body p) -> oke true 0 (wrap e) ->
+  compile bs (wrap e) = inr p -> okdeleg (p_body p) -> oke true 0 (wrap e) ->
   forall (max_st : nat) (lim : option N) (fuelv : nat) sv,
   fst (vm_run cx p max_st lim fuelv) = RMatch sv ->
   Forall (fun v => match v with MAXV => True | V q => bnd cs q end) (firstn (2 * S (ngroups e)) sv).
